@@ -40,7 +40,7 @@ def fresh(v1, t1, v2, t2):
     return (v1 < v2 and v2 - v1 < (1 << 23)) or (v1 > v2 and v1 - v2 > (1 << 23)) or (t2 > t1 + 128)
 
 
-def run_sequence(res, blockwise, v0, items, seedchar=b"n"):
+def run_sequence(res, blockwise, v0, items, seedchar=b"n", first_delay=0.0):
     """items: ("n", dv, dt, con) notification | ("dup",) repeat the previous datagram | ("fin", code) response without
     Observe | ("icmp",) transport error | first-response variant given through v0 = None (no Observe)."""
     w = World()
@@ -63,7 +63,7 @@ def run_sequence(res, blockwise, v0, items, seedchar=b"n"):
                 itend.append(e)
         task = w.loop.create_task(consume())
         w.loop.settle()
-        case = {"blockwise": blockwise, "v0": v0, "items": [list(i) for i in items]}
+        case = {"blockwise": blockwise, "v0": v0, "items": [list(i) for i in items], "first_delay": first_delay}
         res.evaluations += 1
         res.traces += 1
 
@@ -86,7 +86,15 @@ def run_sequence(res, blockwise, v0, items, seedchar=b"n"):
             exp_end = "any"
             items = items[1:]
         else:
-            srv.first_response(v0, b"first")
+            if first_delay:
+                # the server acknowledges the registration at once and answers it only first_delay seconds later
+                src, token, rmid, rcon = srv.reg
+                srv.send(src, (rc.ACK, 0, rmid, b"", [], b""))
+                pump()
+                w.loop.advance(first_delay)
+                srv.notify(v0, b"first", con=False)
+            else:
+                srv.first_response(v0, b"first")
             pump()
             if v0 is None:
                 alive = False
@@ -324,6 +332,12 @@ def job(arg):
             run_sequence(res, bw, 5, (("icmp0",), small[0]))
             two_observations(res, bw, False)
             two_observations(res, bw, True)
+            # the first response arrives late (separate response 100 s after the registration): freshness is measured from
+            # its arrival, not from the time the request was made
+            late = [("n", dv, dt, True) for dv in (-1, 0, 1) for dt in (0.0, 27.9, 28.1, 127.9, 128.1)]
+            for n in range(1, 3):
+                for seq in itertools.product(late, repeat=n):
+                    run_sequence(res, bw, 5, seq, first_delay=100.0)
         res.sample({"v0": 5, "items": [list(small[0]), ["fin", 132, True], list(small[1])]})
     return res
 
@@ -342,7 +356,7 @@ def run(tier, seed, jobs):
 def replay(case, scenario, seed):
     res = Result()
     items = tuple(tuple(i) for i in case["items"])
-    run_sequence(res, case["blockwise"], case["v0"], items)
+    run_sequence(res, case["blockwise"], case["v0"], items, first_delay=case.get("first_delay", 0.0))
     return [v for v, n in res.violations.values()]
 
 
